@@ -140,6 +140,10 @@ func (s Sql) DropPrimaryKeyStm() string {
 
 // DropForeignKeyStm ...
 func (s Sql) DropForeignKeyStm() string {
+	if s.IsMysql() {
+		return s.apply("ALTER TABLE %s DROP FOREIGN KEY %s;")
+	}
+
 	return s.apply("ALTER TABLE %s DROP CONSTRAINT %s;")
 }
 
